@@ -556,6 +556,9 @@ class Exec:
             if op == '*':
                 v = self._value(s, st, fr)
                 if isinstance(v, Ref): return v
+                if hasattr(self.dom, 'deref'):
+                    r = self.dom.deref(self, n, v, st, fr)
+                    if r is not None: return r
                 return Unknown('deref')
             return Unknown('unop' + op)
         if k == 'binop':
@@ -566,6 +569,13 @@ class Exec:
                 if loc is None:
                     lv = self._value(n.n('lhs'), st, fr)
                     if isinstance(lv, Ref): loc = lv.loc
+                lhs_ = n.n('lhs')
+                if loc is not None and lhs_ is not None and lhs_.k == 'ref' and lhs_.d.get('declref') and hasattr(self.dom, 'assign_to'):
+                    # assignment through a reference variable bound to a domain-level lvalue (an element slot)
+                    cur = st.store.get(loc)
+                    if cur is not None and not isinstance(cur, Ref):
+                        r = self.dom.assign_to(self, n, cur, rv, st, fr)
+                        if r is not None: return r
                 if loc is None:
                     if hasattr(self.dom, 'assign_to'):
                         r = self.dom.assign_to(self, n, self._value(n.n('lhs'), st, fr), rv, st, fr)
